@@ -77,8 +77,11 @@ PROPS = {
                 "(portfolio weights rows with equal weight in map order) was repaired in /repo (fix: commit 795b0e8). Findings on the unchanged code (known_findings.jsonl), recognised by their exact shape only: "
                 "returns-prints-periods-before-a-late-failure (portfolio returns prints a schedule-dependent prefix of its report when the journal is rejected on a late day; exit status stable) and "
                 "print-same-day-directives-of-different-files-in-arrival-order (print / transcode: same-day price / open / balance / close directives of different included files come out in loader arrival order), "
-                "returns-ill-conditioned-period-float-sum-in-arrival-order (portfolio returns on several files: NaN% or +Inf% in a period whose denominator vanishes). A second genuine defect found by this check (register -d / -a: "
-                "rows tied on destination account and commodity in map order) was repaired in /repo (fix: commit e77962c).",
+                "returns-ill-conditioned-period-float-sum-in-arrival-order (portfolio returns on several files: NaN% or +Inf% in a period whose denominator vanishes), "
+                "print-same-day-transactions-differing-only-in-targets-in-arrival-order (print: same-day transactions of different files that differ only in their @performance targets tie in transaction.Compare) and "
+                "valued-reports-same-day-requote-across-files (one price pair quoted differently on one date in two files: the last arrival wins) - the last two found by the review of the census, kept in view by stream `arrival`. "
+                "A second genuine defect found by this check (register -d / -a: "
+                "rows tied on destination account and commodity in map order) was repaired in /repo (fix: commit e77962c); a third, found by the census review (portfolio weights: float sums in map order swap rows of equal weight), by 19865c1 + 54048cb.",
         "rule": "inputs built for ties: sibling accounts with equal values, diamond-shaped price graphs with inconsistent cross rates, equally likely bayes candidates split over included training "
                 "files, several currencies per day in revolut2 statements, same-day directives; plus lifecycle journals with chained prices. class = (command, exit, output size). "
                 "Stream `failing`: include trees (2-30 files of very different or equal sizes, nested) with 0-2 faults at the first / a middle / the last position of any file (half-typed directive, include of a missing file / a directory / an ancestor, "
